@@ -58,7 +58,7 @@ func genC07(t *rapid.T) c07Case {
 	usedFar := false
 	for i := 0; i < n; i++ {
 		l := fmt.Sprintf("op%d", i)
-		kinds := []string{"write", "write", "write", "dep", "get", "get", "search", "event", "reload", "sleepTo", "sleepTo", "sleepTo", "sleep", "list"}
+		kinds := []string{"write", "write", "write", "dep", "get", "get", "search", "event", "reload", "sleepTo", "sleepTo", "sleepTo", "sleep", "list", "deprule", "keep", "event"}
 		switch k := rapid.SampledFrom(kinds).Draw(t, l+".kind"); k {
 		case "write":
 			id := rapid.SampledFrom(c07Items).Draw(t, l+".id")
@@ -78,8 +78,15 @@ func genC07(t *rapid.T) c07Case {
 			c.Ops = append(c.Ops, op{K: "write", Id: id, Doc: M{"enc": enc, "d": d}})
 		case "dep":
 			c.Ops = append(c.Ops, op{K: "dep", Id: "d1", L: []string{rapid.SampledFrom(c07Items).Draw(t, l+".target")}})
+		case "deprule":
+			// a rule for the same events as r1 that is a deleteWith
+			// dependent of an expiring item (often of the rule r1)
+			c.Ops = append(c.Ops, op{K: "deprule", Id: "r2", L: []string{rapid.SampledFrom([]string{"r1", "r1", "i1", "i2"}).Draw(t, l+".target")}})
+		case "keep":
+			// a rule for the same events that never expires
+			c.Ops = append(c.Ops, op{K: "keep", Id: "keep"})
 		case "get":
-			c.Ops = append(c.Ops, op{K: "get", Id: rapid.SampledFrom(append([]string{"d1"}, c07Items...)).Draw(t, l+".id")})
+			c.Ops = append(c.Ops, op{K: "get", Id: rapid.SampledFrom(append([]string{"d1", "r2", "keep"}, c07Items...)).Draw(t, l+".id")})
 		case "search", "event", "reload", "list":
 			c.Ops = append(c.Ops, op{K: k})
 		case "sleepTo":
@@ -119,9 +126,10 @@ func runC07(c c07Case) *vlib.Outcome {
 		o.Label("slow-storage")
 	}
 	w := newWorld(c.Kind, store, o)
+	w.strictEvents = true
 	w.open("L")
 	ml := w.model["L"]
-	universe := append([]string{"d1"}, c07Items...)
+	universe := append([]string{"d1", "r2", "keep"}, c07Items...)
 	seenExp := map[string]float64{} // first observed `expires` per item
 	nearBoundary, reloadBeforeE := false, false
 
@@ -302,6 +310,19 @@ func runC07(c c07Case) *vlib.Outcome {
 				o.Fail("ADD_ERROR", "%s: %v", when, r.Err)
 			}
 			addedAt["d1"] = t.UnixNano()
+		case "deprule":
+			rule := mkRule(M{"a": "x"}, "r2")
+			rule["deleteWith"] = toA(x.L)
+			if r := w.addRule("L", "r2", rule); r.Err != nil {
+				o.Fail("ADDRULE_ERROR", "%s: %v", when, r.Err)
+			}
+			addedAt["r2"] = t.UnixNano()
+			o.Label("dependent-rule")
+		case "keep":
+			if r := w.addRule("L", "keep", mkRule(M{"a": "x"}, "keep")); r.Err != nil {
+				o.Fail("ADDRULE_ERROR", "%s: %v", when, r.Err)
+			}
+			addedAt["keep"] = t.UnixNano()
 		case "get":
 			if it, have := ml.Items[x.Id]; have && it.ExpLo != 0 {
 				if d := it.ExpLo*int64(time.Second) - t.UnixNano(); d >= -int64(time.Second) && d <= int64(time.Second) {
